@@ -148,6 +148,9 @@ def gen_case(rng, with_mailbox):
             continue
         types.add(t)
         ln = rng.choice([0, 2, 4, 6, 8, 10, 30, rng.randint(0, 60) * 2])
+        if rng.random() < 0.03:
+            # a large category: the category area goes beyond 4 KiB
+            ln = rng.choice([4090, 4096, 4100, rng.randint(2000, 5000) * 2])
         order.append((t, bytes(rng.getrandbits(8) for _ in range(ln))))
     rng.shuffle(order)
     return dict(ident=ident, cats=[[t, d.hex()] for t, d in order],
@@ -288,6 +291,8 @@ def check_case(case, res, prior=None):
     res.case(case, nontrivial=ncat >= 2 or nent >= 1)
     if case.get("long_busy"):
         res.count("cases_with_a_long_busy_access")
+    if sum(len(d) // 2 + 4 for _, d in case["cats"]) > 4096:
+        res.count("cases_with_more_than_4_KiB_of_categories")
     if any(t == 0 for t, _ in case["cats"]):
         res.count("cases_with_a_category_of_type_0")
     if any(t >= 0x8000 for t, _ in case["cats"]):
